@@ -71,6 +71,8 @@ type obs struct {
 	terr                                     error
 	doneTimeout, ctxTimeout, driverRecovered bool
 	preEntered                               int
+	unwindOpen                               []string
+	unwindChecked                            int
 }
 
 func (st *reqState) snapshot() obs {
@@ -83,7 +85,7 @@ func (st *reqState) snapshot() obs {
 		methodCalls: st.methodCalls, ctrlID: st.ctrlID, ctrlSvc: st.ctrlSvc, ctrlScope: st.ctrlScope, ctrlEarly: st.ctrlEarly,
 		scopeErrH: st.scopeErrH, resErrH: st.resErrH, panicH: st.panicH, propagated: st.propagated, propVal: st.propVal,
 		status: st.status, terr: st.terr, doneTimeout: st.doneTimeout, ctxTimeout: st.ctxTimeout, driverRecovered: st.driverRecovered,
-		preEntered: st.preEntered,
+		preEntered: st.preEntered, unwindOpen: append([]string(nil), st.unwindOpen...), unwindChecked: st.unwindChecked,
 	}
 }
 
@@ -312,6 +314,15 @@ func (cs *caseState) checkRequest(st *reqState) (fs []finding, inconclusive stri
 		if cs.appSvc != nil && cs.appSvc.closes.Load() != 0 {
 			add("app-scope-closed", p.Exit, "after the request the application scope's own scoped instance has %d Close event(s)", cs.appSvc.closes.Load())
 		}
+	}
+
+	// ---- ... and it was so at the moment the request left the middleware chain ----
+	// (fiber's middleware closes the scope after c.Next() returned, without defer: when a panic
+	// propagates through it, the scope is closed by fasthttp's release of the request context -
+	// the scope is an io.Closer user value - i.e. still when the request ends, but after the
+	// outer middlewares unwound. That path is judged by the end-of-request clause below only.)
+	if len(ob.unwindOpen) > 0 && !(fw == FWFiber && ob.propagated) {
+		add("scope-open-when-request-ended", p.Exit, "when the request left the scope middleware (deferred function of the outer middleware): %v", ob.unwindOpen)
 	}
 
 	// ---- the scope is disposed, its instances closed exactly once ----
